@@ -116,7 +116,12 @@ def init_opdata(loc, from_mod, version_tuple=None, is_pypy=False):
     loc["is_pypy"] = is_pypy
     loc["cmp_op"] = cmp_op
     loc["HAVE_ARGUMENT"] = HAVE_ARGUMENT
-    loc["findlinestarts"] = findlinestarts
+
+    def version_findlinestarts(code, dup_lines=False):
+        # Decode the line-number table the way this bytecode version does.
+        return findlinestarts(code, dup_lines, version_tuple)
+
+    loc["findlinestarts"] = version_findlinestarts
     if version_tuple is None or version_tuple <= (3, 5):
         loc["findlabels"] = findlabels
         loc["get_jump_targets"] = findlabels
